@@ -340,7 +340,7 @@ func TestVerifC29(t *testing.T) {
 			}
 			// ---------------- /get
 			S := pickT()
-			D := []time.Duration{200 * time.Millisecond, time.Second, 2500 * time.Millisecond, 10 * time.Second, 40 * time.Millisecond}[rng.IntN(5)]
+			D := []time.Duration{200 * time.Millisecond, time.Second, 2500 * time.Millisecond, 10 * time.Second, 40 * time.Millisecond, 30 * time.Hour, 400000 * time.Second, 30 * 24 * time.Hour}[rng.IntN(8)]
 			url := fmt.Sprintf("%s/get?path=cam&start=%s&duration=%s", base, fmtT(S), fmt.Sprintf("%.6f", D.Seconds()))
 			// the span the window is served from: the first one that has media inside the window
 			spanIdx := -1
@@ -605,6 +605,6 @@ func TestVerifC29(t *testing.T) {
 			}
 		}
 	}
-	r.Finish("recording histories made by the real recorder: 2..4 publisher sessions (new stream id each) of 1..4 s, separated by gaps of 0.5..3.5 s or following each other within 40 ms, GOP 1 / 5 / 12, 10 / 25 / 30 fps, with or without audio (in step, lagging by 300 ms or leading by 180 ms), parts of 100..500 ms, segments of 1..2 s; in half of the histories the newest segment is still open (the file as it is on disk before close: no duration in its header). Reference = the harness' own box walker over the files (sample table with absolute times; spans = maximal runs of consecutive segment numbers of one stream id). Queries to the real playback server (child process) over HTTP: /list with start / end at span, segment and sample boundaries +-0, 1, 40, 500 ms (and open ended): returned spans == recorded spans clipped to the window (2 ms tolerance), ordered, non overlapping; /get windows of 40 ms..10 s at the same instants: per track, returned payloads == recorded samples in [start, start+duration) of the first span with media in the window, preceded by the samples since the last random-access sample only when the first one is not one, stamped relative to the requested start (2 ms). non-trivial = distinct (history, request)",
+	r.Finish("recording histories made by the real recorder: 2..4 publisher sessions (new stream id each) of 1..4 s, separated by gaps of 0.5..3.5 s or following each other within 40 ms, GOP 1 / 5 / 12, 10 / 25 / 30 fps, with or without audio (in step, lagging by 300 ms or leading by 180 ms), parts of 100..500 ms, segments of 1..2 s; in half of the histories the newest segment is still open (the file as it is on disk before close: no duration in its header). Reference = the harness' own box walker over the files (sample table with absolute times; spans = maximal runs of consecutive segment numbers of one stream id). Queries to the real playback server (child process) over HTTP: /list with start / end at span, segment and sample boundaries +-0, 1, 40, 500 ms (and open ended): returned spans == recorded spans clipped to the window (2 ms tolerance), ordered, non overlapping; /get windows of 40 ms..10 s, 30 h, 400000 s and 30 days at the same instants: per track, returned payloads == recorded samples in [start, start+duration) of the first span with media in the window, preceded by the samples since the last random-access sample only when the first one is not one, stamped relative to the requested start (2 ms). non-trivial = distinct (history, request)",
 		"spans shorter than 2 ms are ignored on both sides; a window that covers several sessions is judged on the first one only")
 }
